@@ -15,6 +15,7 @@ import threading
 
 import core
 import sched
+import priv
 import c19
 
 KLASS = "F30-raising-builtin-skips-user-handler"
@@ -433,7 +434,7 @@ class Real14(Sched14):
             reader = asyncio.StreamReader()
             stop = threading.Event()
             rt = asyncio.ensure_future(run_async(stop, reader, self.protocol,
-                                                 error_handler=self.server._report_server_error))
+                                                 error_handler=priv.error_handler(self.server)))
             me = asyncio.current_task()
             for k, m in enumerate(msgs):
                 self.cur = {"k": k}
@@ -493,16 +494,22 @@ def judge_real(case, got, S, actual):
     return None
 
 
+@priv.in_worker
 def _real_one(case):
     try:
         return Real14(case).run()
+    except priv.Unresolvable:       # a failure of the harness, not an observation of pygls
+        raise
     except BaseException as ex:     # noqa
         return {"per": [], "anomalies": ["raise " + type(ex).__name__ + " " + str(ex)[:200]]}
 
 
+@priv.in_worker
 def _run_one(case):
     try:
         return run_case(case)
+    except priv.Unresolvable:
+        raise
     except BaseException as ex:     # noqa
         return ["raise", type(ex).__name__, str(ex)[:200]]
 
@@ -1138,7 +1145,7 @@ def anchored_coverage(cases):
             _run_one(c)
     finally:
         cov.stop()
-    total, missing = 0, []
+    total, missing, gone = 0, [], []
     for modname, names in ANCHORS:
         mod = importlib.import_module(modname)
         fn = mod.__file__
@@ -1147,14 +1154,17 @@ def anchored_coverage(cases):
         for nm in names:
             o = mod
             for part in nm.split("."):
-                o = getattr(o, part)
+                o = getattr(o, part, None)
+            if o is None:               # evidence only: an anchored private function that was renamed is not counted
+                gone.append(nm)
+                continue
             src, start = inspect.getsourcelines(o)
             a, b = start, start + len(src) - 1
             total += len([l for l in stmts if a <= l <= b])
             missing += ["%s:%d" % (os.path.basename(fn), l) for l in miss if a <= l <= b
                         and not lines[l - 1].lstrip().startswith(("def ", "class ", "@", "async def "))]
     return {"anchored_lines": total, "anchored_lines_executed": total - len(missing),
-            "anchored_lines_never_executed": missing}
+            "anchored_lines_never_executed": missing, "anchored_functions_not_found": gone}
 
 
 class C14(core.Property):
@@ -1183,7 +1193,9 @@ class C14(core.Property):
                     "(Sched14: registrations, payloads, the handler log, wrapping of fm.builtin_features entries)",
                     "modelled not verified: asyncio task start / cancel-before-start, concurrent.futures.Future.cancel, "
                     "dict order, inspect.signature / get_type_hints (abstract signature), lsprotocol structuring "
-                    "(messages are well-formed), the workspace transformers of the built-ins (C04 / C10)"]
+                    "(messages are well-formed), the workspace transformers of the built-ins (C04 / C10)",
+                    priv.trusted(sched.PRIVATE + ["protocol.get_handler"])]
+    private = sched.PRIVATE + ["protocol.get_handler"]       # (get_handler: c19's probe machinery, used by the shape product)
     assumptions = ["messages are well-formed LSP messages for their method (structuring succeeds: C06, C13)",
                    "the reply clauses of the reference attribute replies by request id: exact for pairwise distinct "
                    "ids, containment when a client reuses an id (the model itself handles reuse: impl = M)",
@@ -1222,10 +1234,10 @@ class C14(core.Property):
 
     def run_impl(self, chk, cases):
         if len(cases) < 40:
-            return [_run_one(c) for c in cases]
+            return priv.collect(_run_one(c) for c in cases)
         import multiprocessing as mp
         with mp.get_context("fork").Pool(4) as pool:
-            return pool.map(_run_one, cases, chunksize=8)
+            return priv.collect(pool.map(_run_one, cases, chunksize=8))
 
     def model_input(self, case):
         return encode_case(case)
@@ -1374,7 +1386,7 @@ class C14(core.Property):
         rcases += [dict(c, t="real", evs=[e for e in c["evs"] if e[0] == "recv"]) for c in matrix_cases()[::3]]
         import multiprocessing as mp
         with mp.get_context("fork").Pool(4) as pool:
-            rgot = pool.map(_real_one, rcases, chunksize=8)
+            rgot = priv.collect(pool.map(_real_one, rcases, chunksize=8))
         routs = core.run_driver("C14", [encode_case(c) for c in rcases])
         nreal = 0
         for c, g, o in zip(rcases, rgot, routs):
@@ -1442,3 +1454,9 @@ def _regenerate14(self, chk):
 
 
 C14.regenerate = _regenerate14
+
+# Link theorem Workspace.v <-> Dispatch.v (coq/Proofs/LinkWorkspaceDispatch.v): the snapshot a chained
+# user handler sees is `abs` of C10's post-state
+C14.obligations = list(C14.obligations) + ["Proofs.LinkWorkspaceDispatch::" + n for n in (
+    "link_workspace_dispatch", "link_snapshot", "link_reference", "link_nonvacuous")]
+C14.coq_targets = list(C14.coq_targets) + ["Proofs/LinkWorkspaceDispatch.vo"]
